@@ -50,6 +50,11 @@ def run(R, ctx):
     R.rule('R15.5', 'shutdown/flush tables of the file writer: the active writer is flushed in every mode and configuration (shared with R04.1)')
     import c04 as _c04
     _c04.file_writer_level(_Map(R, {'R04.1': 'R15.5'}), ctx)
+    # buffered vs direct: at a rotation the buffered tail reaches the closed file only when the old writer is dropped by the swap; the swap therefore
+    # precedes the cleanup that may compress / remove that file (shared with R01.4)
+    R.rule('R15.6', 'rotation: writer swap (flush of the buffered tail) precedes the cleanup of the closed file (shared with R01.4)')
+    import c01 as _c01
+    _c01.swap_rules(_Map(R, {'R01.4': 'R15.6'}), ctx)
     if ctx.has('async'):
         payloads(R, ctx)
         # pooled buffers: what the async arm formats into must be empty - a buffer returned to the pool uncleared (e.g. a processed
